@@ -12,7 +12,7 @@ from pathlib import Path
 VERIF = Path(__file__).resolve().parent.parent
 REPO = Path(os.environ.get("XV_REPO", "/repo"))
 CACHE = VERIF / ".cache"
-EVIDENCE = VERIF / "evidence"
+EVIDENCE = Path(os.environ["XV_EVIDENCE_DIR"]) if os.environ.get("XV_EVIDENCE_DIR") else VERIF / "evidence"
 REPLAYS = VERIF / "replays"
 PY = "/venv/bin/python"
 STDLIB = Path("/root/.pyenv/versions/3.12.1/lib/python3.12")
